@@ -14,6 +14,7 @@ func init() {
 	vfRegistry["VfH_expr"] = VfH_expr
 	vfRegistry["VfH_anybytes"] = VfH_anybytes
 	vfRegistry["VfH_split"] = VfH_split
+	vfRegistry["VfH_tokens"] = VfH_tokens
 }
 
 // ----- reference -----
@@ -246,4 +247,67 @@ func VfH_split() {
 	isSpace := func(b byte) bool { return b == ' ' || b == '\t' || b == '\n' || b == '\v' || b == '\f' || b == '\r' }
 	want := !multi && (n == 0 || isSpace(bs[0]))
 	vfAssert(got == want, "split/is-constraint-iff-prefix-then-space")
+}
+
+// ----- token-level harness -----
+// The constraint is a sequence of L tokens over {a b ( ) ! && ||}: the token
+// sequence is enumerated (concrete execution, one path per sequence), the tag
+// assignment stays symbolic, so each path's solver query covers all 2^16
+// assignments. Reaches expressions of 7 tokens such as "(a||b)&&a" or
+// "a&&b&&a" that the byte-level harness cannot reach within its length bound.
+var vfToks = [7]string{"a", "b", "(", ")", "!", "&&", "||"}
+
+const vfTokMax = 7
+
+// Case k: L = number of tokens, first two tokens fixed (parallel tasks).
+// L=1: 7 cases; L>=2: 49 cases each.
+func VfN_tokens() int { return 7 + 49*(vfTokMax-1) }
+
+func vfTokCase(k int) (L, t0, t1 int) {
+	if k < 7 {
+		return 1, k, 0
+	}
+	k -= 7
+	return 2 + k/49, k % 49 / 7, k % 7
+}
+
+var vfTokNames = [vfTokMax]string{"t0", "t1", "t2", "t3", "t4", "t5", "t6"}
+
+func VfH_tokens() {
+	L, t0, t1 := vfTokCase(vfCase())
+	text := vfToks[t0]
+	if L >= 2 {
+		text += vfToks[t1]
+	}
+	for i := 2; i < L; i++ {
+		text += vfToks[vfChoice(vfTokNames[i], 7)]
+	}
+	if vfSymbolic() {
+		vfNote("case:L=" + string(rune('0'+L)) + ",prefix=" + vfToks[t0] + vfToks[t1])
+	}
+	assign := vfU16("assign")
+	okf := func(tag string) bool { return assign>>vfTagHash([]byte(tag))&1 == 1 }
+	var x Expr
+	var err error
+	p := vfCatch(func() { x, err = Parse("#wa:build " + text) })
+	vfAssert(!p, "tok/parse-no-panic")
+	if p {
+		return
+	}
+	racc, rval := vfRefEval([]byte(text), assign)
+	acc := err == nil && x != nil
+	vfAssert(acc == racc, "tok/accepts-iff-wellformed")
+	if !acc || !racc {
+		return
+	}
+	val := x.Eval(okf)
+	vfObserve("value", vfB2U(val))
+	vfAssert(val == rval, "tok/eval-equals-boolean-formula")
+	var y Expr
+	var err2 error
+	p2 := vfCatch(func() { y, err2 = Parse("#wa:build " + x.String()) })
+	vfAssert(!p2 && err2 == nil && y != nil, "tok/printed-form-parses")
+	if !p2 && err2 == nil && y != nil {
+		vfAssert(y.Eval(okf) == val, "tok/printed-form-equivalent")
+	}
 }
